@@ -279,6 +279,54 @@ def periodic_problem(rng, kind):
     return p
 
 
+def session_mesh(ctx, k, p):
+    """the same problem meshed inside a femmcli session in which entities are still SELECTED (a segment or arc that is not
+    part of a periodic pair, a point, a block label, as a script leaves them after setting properties without clearing):
+    the mesh files must be byte-identical to those of the stand-alone mesher -- the editor's selection is not part of
+    the problem.  Mesh files are captured through hard links (the session unlinks them after loading)."""
+    import hashlib
+    pi = {"fee": "ei", "feh": "hi", "fem": "mi"}[p["kind"]]
+    ext = {"fee": ".fee", "feh": ".feh", "fem": ".fem"}[p["kind"]]
+    base = os.path.join(ctx.work, "m%d" % k)
+    sb = os.path.join(ctx.work, "s%d" % k)
+    femgen.write(p, sb + ext)
+    per = set(i + 1 for i, b in enumerate(p.get("bdryprops", [])) if b.get("type") in ({"fee": (3, 4), "feh": (4, 5), "fem": (4, 5, 6, 7)}[p["kind"]]))
+    pts = p["points"]
+    L = ['open("%s")' % (sb + ext)]
+    segs = [s_ for s_ in p.get("segments", []) if s_.get("bdry", 0) not in per]
+    arcs = [a for a in p.get("arcs", []) if a.get("bdry", 0) not in per]
+    for s_ in segs[-2:]:
+        a, b = pts[s_["n0"]], pts[s_["n1"]]
+        L.append("%s_selectsegment(%r, %r)" % (pi, (a["x"] + b["x"]) / 2, (a["y"] + b["y"]) / 2))
+    if arcs:
+        from props import c17_gen
+        mx, my = c17_gen.arc_mid(p, arcs[-1])
+        L.append("%s_selectarcsegment(%r, %r)" % (pi, mx, my))
+    if pts:
+        L.append("%s_selectnode(%r, %r)" % (pi, pts[0]["x"], pts[0]["y"]))
+    if p.get("labels"):
+        L.append("%s_selectlabel(%r, %r)" % (pi, p["labels"][-1]["x"], p["labels"][-1]["y"]))
+    L += ["%s_createmesh()" % pi, 'print("R done")']
+    for e in (".node", ".ele", ".edge", ".pbc"):
+        open(sb + "_keep" + e, "w").close()
+        if os.path.exists(sb + e):
+            os.remove(sb + e)
+        os.link(sb + "_keep" + e, sb + e)
+    lua = sb + ".lua"
+    open(lua, "w").write("\n".join(L) + "\n")
+    rc, out, err = vlib.sh([ctx.snap.tool("femmcli"), "--lua-script=" + lua], timeout=300, cwd=ctx.work)
+    if rc != 0 or "R done" not in out:
+        return "femmcli could not mesh (rc=%d) a problem that the stand-alone mesher meshes, with entities left selected: %s" % (rc, (out + err)[-300:])
+    for e in (".node", ".ele", ".edge", ".pbc"):
+        fa, fb = base + e, sb + "_keep" + e
+        da = open(fa, "rb").read() if os.path.exists(fa) else b""
+        db = open(fb, "rb").read() if os.path.exists(fb) else b""
+        if da != db:
+            return ("the %s file written inside a femmcli session with entities left selected (%d bytes) differs from the "
+                    "stand-alone mesher's (%d bytes): the mesh depends on the editor's selection state" % (e, len(db), len(da)))
+    return None
+
+
 def correspond(ctx):
     rng = ctx.rng
     dis = []
@@ -342,6 +390,11 @@ def correspond(ctx):
         msg = drawn_point_oracle(p, d)
         if msg:
             ctx.fail("fmesher marker assignment: " + msg, problem=p)
+        if periodic or k % 2 == 0:
+            msg = session_mesh(ctx, 100 + k, p)
+            feats["session-with-selection"] = feats.get("session-with-selection", 0) + 1
+            if msg:
+                ctx.fail("mesh hand-off: " + msg, problem=p)
         if periodic:
             # the .poly of the periodic path is that of the first trial pass: entity ownership is checked
             # on the final mesh by the validator below
